@@ -94,6 +94,11 @@ def run(tier, seed):
             if r['exc'] is not None:
                 continue
             chk.evals += 1
+            src = [x for x in r['inv'] if x.startswith('copy-changed-its-source')]
+            if src:
+                chk.fail(None, {'clause': 'a child taken from another element is copied by value (the source keeps it)', 'root': h['root'], 'strict': h['strict'],
+                                'ops': h['ops'][:i + 1], 'source': src[0]}, {'kind': 'api', 'history': h, 'step': i})
+                break
             if r['enc'] != r['spec']:
                 chk.fail(None, {'clause': 'encoding equals the ordered-list reference model', 'root': h['root'], 'strict': h['strict'],
                                 'ops': h['ops'][:i + 1], 'encoding': r['enc'], 'reference_model': r['spec']},
